@@ -127,19 +127,25 @@ def parseNsDoc (s : String) : Option (Option (String × Readers.NsNode)) :=
     | _, _ => none
   | [] => none
 
+/-- why a `decoded` field could not be read: a non-finite number inside (the model has no value for it: the
+    case is left untied and TAGGED), or anything else (a bug of the harness: BAD, never a silent pass) -/
+def untiedWhy (decoded : String) : String :=
+  if (splitToks decoded).any (fun t => ["lnan", "l+inf", "l-inf", "fnan", "f+inf", "f-inf", "dnan", "d+inf", "d-inf"].contains t)
+  then "UNTIED-NONFINITE" else "UNTIED-BAD decoded field not understood: " ++ short decoded
+
 /-- model of the XML / JSON entry points on the decoded structure -/
 def tieDecoded (fmt decoded outcome : String) (recs : List ObsRec) : Option String :=
   match fmt with
   | "phyloxml" | "phyloxmlm" =>
     match parsePx decoded with
-    | none => none
+    | none => some (untiedWhy decoded)
     | some none =>
       if fmt == "phyloxml" then tieOut (.err "xml") outcome recs else tieOut (.ok [⟨0, none⟩]) outcome recs
     | some (some ps) =>
       if fmt == "phyloxml" then tieOut (Readers.phyloxmlOne ps) outcome recs else tieOut (Readers.phyloxmlMulti ps) outcome recs
   | "nextstrain" | "nextstrainm" =>
     match parseNsDoc decoded with
-    | none => none
+    | none => some (untiedWhy decoded)
     | some none =>
       if fmt == "nextstrain" then tieOut (.err "json") outcome recs else tieOut (.ok [⟨0, none⟩]) outcome recs
     | some (some (v, n)) =>
@@ -276,10 +282,38 @@ def tieModel (fmt bufsize : String) (bytes : List UInt8) (decoded outcome : Stri
   | "nexusm" => tieOut (Readers.nexusMulti bytes) outcome recs
   | _ => tieDecoded fmt decoded outcome recs
 
+/-- the end of a handler: PASS, TIE, or — for a case the model could not be applied to — PASS with the tag
+    `untied-nonfinite`, resp. BAD when the reason is not a non-finite number -/
+def conclude (tags : List String) (tie : Option String) (extra : List String := []) : Verdict :=
+  match tie with
+  | none => ⟨.pass, tags ++ extra, ""⟩
+  | some d =>
+    if d.startsWith "UNTIED-NONFINITE" then ⟨.pass, tags ++ ["untied-nonfinite"], ""⟩
+    else if d.startsWith "UNTIED" then bad d
+    else ⟨.tie, tags, d⟩
+
 def bufSize (s : String) : Nat := match s.toNat? with | some n => if n < 16 then 4096 else n | none => 4096
 
 def handle (op : String) (f : List String) : Verdict :=
   match op, f with
+  | "scale", [kind, outcome, nsS, bsS, usS] =>
+    match parseNatList nsS, parseNatList bsS, parseNatList usS with
+    | some _ns, some bs, some us =>
+      -- growth between the two largest sizes tried: the time must not grow more than three times faster than the
+      -- number of bytes (a quadratic reader: ten times the bytes, a hundred times the time); the smaller of the
+      -- two must have taken at least 5 ms, so that start-up noise does not decide
+      let pts := (bs.zip us).filter fun p => p.1 > 0
+      let superlinear : Bool :=
+        match pts.reverse with
+        | (b1, t1) :: (b0, t0) :: _ => t0 ≥ 5000 && b1 > b0 && t1 * b0 > 3 * t0 * b1
+        | _ => false
+      let tags := ["scale", "scale-" ++ kind, "nontrivial"] ++ tagIf superlinear ("superlinear-" ++ kind) ++
+        tagIf (!superlinear) "scale-linear"
+      -- "terminates" is all the property asks: a super-linear reader is reported (tag), a reader that does not
+      -- come back within the watchdog is a violation like any other timeout
+      if outcomeAllowed outcome then ⟨.pass, tags, if superlinear then "time per byte grows with the size: " ++ usS else ""⟩
+      else ⟨.oracle, tags, "scaling probe " ++ kind ++ " at sizes " ++ nsS ++ ": " ++ short outcome⟩
+    | _, _, _ => bad "C02.scale fields"
   | "readln", [bufsize, input, lines] =>
     match unescapeToBytes input with
     | some bytes =>
@@ -355,7 +389,7 @@ def handle (op : String) (f : List String) : Verdict :=
               | some o => if exactOut o recs then ["fidelity-exact"] else ["fidelity-differs"]
               | none => []
             ⟨.pass, tags ++ fid, ""⟩
-          | some d => ⟨.tie, tags, d⟩
+          | some d => conclude tags (some d)
     | _, _ => bad "C02.read fields"
   | "cli", [flag, input, outcome, _nl, transport, decoded] =>
     match unescapeToBytes input with
@@ -380,15 +414,17 @@ def handle (op : String) (f : List String) : Verdict :=
             (match parsePx decoded with
              | some none => some "err"
              | some (some ps) => some (cls (Readers.phyloxmlMulti ps))
-             | none => none)
+             | none => some (untiedWhy decoded))
           | "nextstrain" =>
             (match parseNsDoc decoded with
              | some none => some "err"
              | some (some (v, n)) => some (cls (Readers.nextstrainMulti v n))
-             | none => none)
-          | _ => none
+             | none => some (untiedWhy decoded))
+          | _ => some "UNTIED-BAD unknown format"
         match m with
-        | some c => if c == outcome then ⟨.pass, tags, ""⟩ else ⟨.tie, tags, "model: " ++ c⟩
+        | some c =>
+          if c.startsWith "UNTIED" then conclude tags (some c)
+          else if c == outcome then ⟨.pass, tags, ""⟩ else ⟨.tie, tags, "model: " ++ c⟩
         | none => ⟨.pass, tags, ""⟩
     | none => bad "C02.cli input"
   | "clicmd", [cmd, fmt, _input, outcome] =>
@@ -409,9 +445,7 @@ def handle (op : String) (f : List String) : Verdict :=
         -- a missing file / a file that is not gzip: the entry point reports the error of GetReader
         (if outcome == "err" && recs.isEmpty then ⟨.pass, tags, ""⟩ else ⟨.tie, tags, "model: the file cannot be opened, err"⟩)
       else
-        match tieModel fmt "0" bytes decoded outcome recs with
-        | none => ⟨.pass, tags, ""⟩
-        | some d => ⟨.tie, tags, d⟩
+        conclude tags (tieModel fmt "0" bytes decoded outcome recs)
     | _, _ => bad "C02.file fields"
   | "dec", [fmt, input, outcome, recsS, decodedGo, expected, kind] =>
     match unescapeToBytes input, parseRecs recsS with
@@ -425,9 +459,7 @@ def handle (op : String) (f : List String) : Verdict :=
       else if decodedGo != expected then
         ⟨.tie, tags, "the decoder does not give the generator's structure: " ++ short decodedGo⟩
       else
-        match tieDecoded fmt expected outcome recs with
-        | none => ⟨.pass, tags, ""⟩
-        | some d => ⟨.tie, tags, d⟩
+        conclude tags (tieDecoded fmt expected outcome recs)
     | _, _ => bad "C02.dec fields"
   | "nestx", [fmt, depthS, outcome, use] =>
     let tags := ["nest", "nest-" ++ fmt, "nontrivial"]
